@@ -375,14 +375,15 @@ class C14(F.PropCheck):
         return res
 
     def finding_key(self, case, what):
-        """known class: the body of the request is spread over more than one TCP segment"""
-        if 'segmentation:' in what or what.startswith('disagreement'):
-            conns = self.split_events(case)
-            if conns and len(conns[0][1]) > 1:
-                req = b''.join(conns[0][1]); he = req.find(b'\r\n\r\n')
-                first = len(conns[0][1][0])
-                if he < 0 or any(c > he for c in self.cut_positions(conns[0][1])):
-                    return 'request-body-split-across-tcp-segments' if 'segmentation:' in what else None
+        """known class: a cut of the request lies inside the request line prefix "POST / HTTP" (first 11 bytes) or at/behind
+        the start of the CRLFCRLF that ends the headers (i.e. the header terminator or the form body is spread over
+        segments), or the headers themselves contain '='.  Cuts inside '='-free headers are outside the class."""
+        if 'segmentation:' not in what: return None
+        conns = self.split_events(case)
+        if not conns or len(conns[0][1]) < 2: return None
+        req = b''.join(conns[0][1]); he = req.find(b'\r\n\r\n')
+        if he < 0 or b'=' in req[:he]: return 'request-split-across-tcp-segments'
+        if any(c < 11 or c > he for c in self.cut_positions(conns[0][1])): return 'request-split-across-tcp-segments'
         return None
 
     def cut_positions(self, segs):
